@@ -14,7 +14,7 @@ from spec import wgs84, frames
 
 MANIFEST = dict(
     category="proof",
-    technique="contract-directed symbolic execution of the real functions on sympy reals; equality with spec functions decided by a fraction-field normal form; Taylor-coefficient obligations; run-time stand-in for Olson's inverse; Every claim is also checked for call history: the real code is run twice in the same symbolic world (primed inputs first; same captured objects and module state) and the second result must still meet the contract on every path a concrete witness input takes; value-dependent branches inside a claim are explored path by path. The frame obligations (C19's analysis) of the modules under contract are re-established under this property's name.",
+    technique="contract-directed symbolic execution of the real functions on sympy reals; equality with spec functions decided by a fraction-field normal form; Taylor-coefficient obligations; run-time stand-in for Olson's inverse; Every claim is also checked for call history: the real code is run twice in the same symbolic world (primed inputs first; same captured objects and module state) and the second result must still meet the contract on every path a concrete witness input takes; value-dependent branches inside a claim are explored path by path. The frame obligations (C19's analysis) of the modules under contract are re-established under this property's name.; Bounded stand-ins shared by all properties (labelled bounded, never counted as proved): the argument-form battery of the modules under contract (batches of 1 and 1200 rows, integer-typed values, labels / columns in other orders, extra labels); where the frame analysis finds state that outlives a call (a cache, a memo) the frame obligation becomes a dynamic purity contract against pristine process states; names the proofs replace by scipy contracts are checked to be bound to the library's functions (else a differential test).",
     text="Every function of pyins.earth and the geodetic functions of pyins.transform are executed symbolically (real code objects, scalar and stacked forms) and proved equal, for all latitudes/longitudes/altitudes and all ellipsoid constants, to an independent closed-form WGS-84 specification; the differential statements (frame axes = partial derivatives of ECEF position with the principal radii as lengths, first-order agreement of perturb/difference/NED coordinates, curvature matrix = rotation of the NED frame) are proved as Taylor-coefficient identities; parity in latitude is proved on the code's own expressions. The accuracy of Olson's ECEF->LLA approximation is NOT proved: only its longitude formula and hemisphere symmetry are, the round trip is a bounded run-time stand-in on a stated grid.",
     note="Assumes A1-A6 (floats as reals, numpy structural ops executed on object arrays, numba faithful); scipy Rotation.from_euler replaced by its assumed contract (intrinsic 'ZY'), cross-checked natively on every run; cos(lat)>=0 i.e. |lat|<=90 deg as side condition for sqrt(1-sin^2); Olson inverse accuracy only bounded-checked.",
 )
